@@ -34,6 +34,10 @@ def odml_tuple_import(t_count, new_value):
         new_value = [new_value]
 
     return_value = []
+    # An item that does not fit the tuple format must not silently disappear
+    # from a list in which other items fit: the input is then handed on as it
+    # is and refused by the value conversion.
+    all_fit = True
 
     for n_val in new_value:
         if isinstance(n_val, (list, tuple)):
@@ -42,6 +46,8 @@ def odml_tuple_import(t_count, new_value):
                 for tuple_val in n_val:
                     n_val_str += str(tuple_val) + "; "
                 return_value += [n_val_str[:-2] + ")"]
+            else:
+                all_fit = False
         elif isinstance(n_val, str):
             cln = n_val.strip()
             br_check = cln.count("(") == cln.count(")")
@@ -54,8 +60,12 @@ def odml_tuple_import(t_count, new_value):
                     return_value = cln[1:-1].split(",")
             elif br_check and sep_check:
                 return_value += [cln]
+            else:
+                all_fit = False
+        else:
+            all_fit = False
 
-    if not return_value:
+    if not return_value or not all_fit:
         return_value = new_value
 
     return return_value
